@@ -317,6 +317,34 @@ def trace_linkage(ctx, runs, max_n=12, only=None, big_every=0):
     return rejected
 
 
+def trace_group(ctx, runs):
+    """impl -> spec for C12: random groups far beyond TLC's universe, built and combined by the crate, replayed on the group machine (TraceGroup)"""
+    tf = os.path.join(ctx.scratch, "group-trace.ndjson")
+    try:
+        s = hv(ctx, "record-group", trace=tf, runs=runs)
+    except ToolError as e:
+        os.makedirs(REPLAYS, exist_ok=True)
+        rp = os.path.join(REPLAYS, f"C12-group-recorder-died-seed{ctx.seed}.json")
+        json.dump({"cmd": "trace-group", "property": "C12", "seed": ctx.seed, "runs": runs, "diffs": ["the process that drives the crate's id groups died: " + str(e)[-400:]]}, open(rp, "w"), indent=1)
+        ctx.violations.append(dict(property="C12", what="the recorder process died while driving the crate's id groups (abort / stack overflow in the code under test)", replay=rp))
+        return False
+    ok, line_no = tlc_trace(ctx, "trace/TraceGroup.cfg", "trace/TraceGroup.tla", tf, timeout=1800)
+    if ok:
+        ctx.traces += s.get("cases", 0)
+        ctx.extra["group_events_validated"] = s["extra"]["events"]
+        return True
+    idx = s["extra"]["runs"]
+    run = next((r for r in idx if r["first_line"] <= (line_no or 0) <= r["last_line"]), idx[-1])
+    lines = open(tf).read().splitlines()
+    ev = json.loads(lines[line_no - 1]) if line_no and line_no <= len(lines) else {}
+    os.makedirs(REPLAYS, exist_ok=True)
+    rp = os.path.join(REPLAYS, f"C12-group-seed{ctx.seed}-run{run['run']}.json")
+    what = f"trace validation: recorded group event {json.dumps(ev)[:600]} (run {run['run']}, line {line_no}) is not a step of the group machine (spec/HpoGroupSpec.tla via TraceGroup)"
+    json.dump({"cmd": "trace-group", "property": "C12", "seed": ctx.seed, "runs": runs, "run": run["run"], "line": line_no, "event": ev, "diffs": [what]}, open(rp, "w"), indent=1)
+    ctx.violations.append(dict(property="C12", what=what, replay=rp))
+    return False
+
+
 def trace_jax(ctx, runs, big_every=0, only_run=None):
     """impl -> spec for C09: random JAX file sets outside the image of the specification's writer are loaded by the crate (both loaders);
     TLC accepts each recorded load only if Describes(files) - the declarative reader of spec/HpoJax.tla - equals the facts the crate loaded"""
@@ -873,6 +901,8 @@ def check_C12(ctx):
     s = hv(ctx, "replay-group", prop="C12", **{"in": out})
     ctx.traces += s.get("cases", 0)
     ctx.extra["big_group_pairs"] = s.get("counters", {}).get("big_group_pairs", 0)
+    # impl -> spec: random groups of 0..200 insertions (duplicates, ids up to 10^7) built and combined by the crate, replayed on the group machine
+    trace_group(ctx, 120 if ctx.quick else 1500)
     # ancestor queries = set algebra of ancestor sets: exhaustive small ontologies + recorded large / fan ontologies
     es = hv(ctx, "replay-sim", prop="C12", **{"in": extras_lines(ctx)})
     ctx.traces += es.get("cases", 0)
@@ -1100,6 +1130,20 @@ def replay(path):
             if rej:
                 log(f"reproduced: the specification rejects the recorded Linkage run")
                 log(f"VIOLATION property=C17 replay={path}")
+                return 1
+            log("not reproduced on the current tree")
+            return 0
+        except ToolError as e:
+            log(f"TOOL-ERROR: {e}")
+            return 2
+        finally:
+            ctx.cleanup()
+    if v.get("cmd") == "trace-group":
+        ctx = Ctx("C12", "quick", int(v.get("seed", 1)))
+        try:
+            if not trace_group(ctx, int(v["runs"])):
+                log("reproduced: the specification rejects the recorded group events")
+                log(f"VIOLATION property=C12 replay={path}")
                 return 1
             log("not reproduced on the current tree")
             return 0
